@@ -4,6 +4,7 @@ import (
 	"os"
 
 	_ "verif/checks/c01"
+	_ "verif/checks/c02"
 	_ "verif/checks/c05"
 	_ "verif/checks/c10"
 	_ "verif/checks/c17"
